@@ -131,10 +131,18 @@ class SimWorld:
         self.sandbox = ""
         self._old_cwd = None
         if make_sandbox:
-            self.sandbox = os.path.join(SCRATCH_ROOT, lane, f"s{seed & 0xFFFFFFFFFFFF:x}_{os.getpid()}")
-            if os.path.isdir(self.sandbox):
-                shutil.rmtree(self.sandbox)
-            os.makedirs(self.sandbox)
+            # deterministic path (absolute paths leak into run-space input URIs and ids); a numeric suffix only on collision
+            os.makedirs(os.path.join(SCRATCH_ROOT, lane), exist_ok=True)
+            k = 0
+            while True:
+                self.sandbox = os.path.join(SCRATCH_ROOT, lane, f"s{seed & 0xFFFFFFFFFFFF:x}" + (f"_{k}" if k else ""))
+                try:
+                    os.mkdir(self.sandbox)
+                    break
+                except FileExistsError:
+                    k += 1
+                    if k > 50:
+                        raise
             self._old_cwd = os.getcwd()
             os.chdir(self.sandbox)
         WORLD = self
